@@ -214,9 +214,14 @@ Definition render_kvs (r: sk) : list (string * js) :=
    ++ optkv "default" (fun d => d) r.(k_default) ++ optkv "properties" JObj r.(k_props)
    ++ optkv "additionalProperties" (fun d => d) r.(k_addl) ++ optkv "propertyNames" (fun d => d) r.(k_pnames)
    ++ optkv "prefixItems" JArr r.(k_prefix) ++ optkv "items" (fun d => d) r.(k_items)
+   ++ optkv "multipleOf" JInt r.(k_multipleOf) ++ optkv "maximum" JInt r.(k_maximum)
+   ++ optkv "exclusiveMaximum" JInt r.(k_exMax) ++ optkv "minimum" JInt r.(k_minimum)
+   ++ optkv "exclusiveMinimum" JInt r.(k_exMin)
+   ++ optkv "maxLength" JInt r.(k_maxLength) ++ optkv "minLength" JInt r.(k_minLength)
    ++ optkv "pattern" JStr r.(k_pattern)
    ++ optkv "maxItems" JInt r.(k_maxItems) ++ optkv "minItems" JInt r.(k_minItems)
    ++ optkv "uniqueItems" JBool r.(k_unique)
+   ++ optkv "maxProperties" JInt r.(k_maxProps) ++ optkv "minProperties" JInt r.(k_minProps)
    ++ optkv "required" (fun l => JArr (map JStr l)) r.(k_required) ++ [])%list.
 
 Lemma render_is s : render s = JObj (render_kvs s).
@@ -297,6 +302,15 @@ Proof.
   - reflexivity.
   - reflexivity.
   - reflexivity.
+  - reflexivity.
+  - reflexivity.
+  - reflexivity.
+  - reflexivity.
+  - reflexivity.
+  - reflexivity.
+  - reflexivity.
+  - reflexivity.
+  - reflexivity.
   - unfold fixv, norm_val. simpl. rewrite all_strs_map. reflexivity.
 Qed.
 
@@ -312,12 +326,12 @@ Lemma N_any ks : Sn ks sk0.
 Proof. sknf. Qed.
 Lemma N_arr ks o u : (forall d, o = Some d -> Gn ks d) -> Sn ks (arr_sk o u).
 Proof. intros H. sknf; [inversion H0; reflexivity|apply H; exact H0]. Qed.
-Lemma N_dict ks o : (forall d, o = Some d -> Gn ks d) -> Sn ks (dict_sk o).
+Lemma N_dict ks o p : (forall d, o = Some d -> Gn ks d) -> (forall d, p = Some d -> Gn ks d) -> Sn ks (dict_sk o p).
 Proof.
-  intros H. sknf.
+  intros H Hp. sknf.
   - inversion H0; reflexivity.
   - left. apply H. exact H0.
-  - inversion H0; subst. apply norm_render. apply (N_ty ks "string"). reflexivity.
+  - apply Hp. exact H0.
 Qed.
 Lemma N_tuple ks l : Forall (Gn ks) l -> Sn ks (tuple_sk l).
 Proof.
@@ -351,6 +365,10 @@ Lemma N_enum ks lit vals : Sn ks (enum_sk lit vals).
 Proof. destruct lit; [destruct vals as [|v [|w l]]|]; sknf. Qed.
 Lemma N_descr ks s d : Sn ks s -> Sn ks (set_description s d).
 Proof. intros [A A' B C D E F G H]. destruct d as [[|c d']|]; constructor; simpl; assumption. Qed.
+Lemma N_ann1 c k s : sk_nf s -> sk_nf (apply_ann c k s).
+Proof. intros [A A' B C D E F G H]. destruct c as [kw z|p|b]; try destruct kw; destruct k; constructor; simpl; assumption. Qed.
+Lemma N_ann ks cs k s : forallb ann_ok cs = true -> Sn ks s -> Sn ks (apply_anns cs k s).
+Proof. intros _. unfold Sn. revert s. induction cs as [|c r IH]; intros s H; [exact H|]. simpl. apply IH. apply N_ann1. exact H. Qed.
 Lemma N_default ks s d : Sn ks s -> Sn ks (set_default s d).
 Proof. intros [A A' B C D E F G H]. destruct d; constructor; simpl; assumption. Qed.
 Lemma N_schema ks s u : Sn ks s -> Sn ks (set_schema s u).
@@ -372,7 +390,7 @@ Theorem roundtrip_seq E cfg fuel ts st ds st' :
 Proof.
   intros Hn Hb Hc.
   destruct (build_seq_inv E cfg Gn (fun _ _ _ _ H => H) Sn (fun ks s H => norm_render s H) (fun _ _ _ _ H => H)
-                          N_ty N_any N_arr N_dict N_tuple N_union (fun ks c _ => N_ref ks _) N_obj N_leaf N_enum N_descr N_ntobj
+                          N_ty N_any N_arr N_dict N_tuple N_union (fun ks c _ => N_ref ks _) N_obj N_leaf N_enum N_descr N_ann N_ntobj
                           N_default N_defs N_schema Hn fuel ts st ds st' Hb Hc) as (A & B & _).
   split; assumption.
 Qed.
@@ -384,7 +402,7 @@ Theorem roundtrip_build E cfg fuel wd uri t st d st' :
 Proof.
   intros Hn Hb Hc.
   destruct (build_inv E cfg Gn (fun _ _ _ _ H => H) Sn (fun ks s H => norm_render s H) (fun _ _ _ _ H => H)
-                      N_ty N_any N_arr N_dict N_tuple N_union (fun ks c _ => N_ref ks _) N_obj N_leaf N_enum N_descr N_ntobj
+                      N_ty N_any N_arr N_dict N_tuple N_union (fun ks c _ => N_ref ks _) N_obj N_leaf N_enum N_descr N_ann N_ntobj
                       N_default N_defs N_schema Hn fuel wd uri t st d st' Hb Hc) as (A & B & _).
   split; assumption.
 Qed.
